@@ -281,10 +281,23 @@ def families(env):
     return {"share": share, "base": base, "grad_share": gshare, "grad_aliases_data": data_grad}
 
 
+def census():
+    """number of live Tensor / Operation instances in the process"""
+    objs = gc.get_objects()
+    n_t = sum(1 for o in objs if issubclass(type(o), mg.Tensor))
+    n_o = sum(1 for o in objs if issubclass(type(o), mg.operation_base.Operation))
+    del objs
+    return n_t, n_o
+
+
 def run_case(case):
     reset_global_state()
     if case.get("guard") is False:
         mg.turn_memory_guarding_off()
+    base_census = None
+    if case.get("census"):
+        gc.collect()
+        base_census = census()
     env = Env()
     outcomes, observations = [], []
     identity_lost = []
@@ -402,14 +415,25 @@ def run_case(case):
         wr = {n: weakref.ref(t) for n, t in env.t.items() if isinstance(t, mg.Tensor)}
         wr.update(dead_refs)
         keep = set(case.get("keep", []))
+        t = arr = None          # the runner's own loop variables must not keep a tensor alive
         for n in list(env.t):
             if n not in keep:
                 del env.t[n]
         alive = {n: (r() is not None) for n, r in wr.items()}
     env.t.clear()
+    leaked = None
+    if base_census is not None:
+        # the caller now references nothing: reference counting alone (gc is disabled) must have freed every tensor, operation and placeholder
+        t = arr = None
+        env.owned = []
+        del INDEX_ARRAYS[:]
+        reset_global_state()
+        now = census()
+        leaked = {"tensors": now[0] - base_census[0], "ops": now[1] - base_census[1]}
+        gc.collect()
     errs = list(OBSERVE_ERRORS)
     del OBSERVE_ERRORS[:]
-    return {"outcomes": outcomes, "observations": observations, "alive": alive, "identity_lost": identity_lost, "observe_errors": errs, "owned_modified": owned_modified}
+    return {"leaked": leaked, "outcomes": outcomes, "observations": observations, "alive": alive, "identity_lost": identity_lost, "observe_errors": errs, "owned_modified": owned_modified}
 
 
 def run_repeat(case):
